@@ -5,6 +5,7 @@
    `checked_mul .. get_mut(start..) .. get_mut(0..n) .. ok_or(e).map(|b| b.copy_from_slice(&bytes))` chain is a view
    (offset, length) into the buffer and Casts.view_copy.  Equal to Model/Rawdata.v on the 64-bit usize instance. *)
 From EG Require Import Base.Prelude Base.Casts Model.Rawdata Gen.SrcRaw Gen.SrcRawData Gen.SrcLoadStore Gen.SrcLoadStoreBytes Proofs.SrcLoadStore.
+From EG Require Export Proofs.SrcUsize.
 Set Default Timeout 60.
 
 (* ---- impl_raw_data! ---- *)
@@ -24,9 +25,13 @@ Lemma src_raw_new_eq v :
 Proof. repeat split; reflexivity. Qed.
 
 (* ---- slices ---- *)
-Lemma checked_usize_eq a b : 0 <= a -> 0 <= b -> Casts.checked_usize (a * b) = checked_mul_usize (U := usize64) a b.
+(* the width of usize: the generated definitions take it as Casts.UsizeW, the model as Rawdata.Usize (Proofs/SrcUsize.v identifies
+   them); the theorems below hold for every width (16, 32, 64 bit: the instances usize16 / usize32 / usize64 of the model) *)
+Section WithUsize.
+Context {U : Usize}.
+Lemma checked_usize_eq a b : 0 <= a -> 0 <= b -> Casts.checked_usize (a * b) = checked_mul_usize a b.
 Proof.
-  intros Ha Hb. unfold Casts.checked_usize, checked_mul_usize, Casts.min_usize, Casts.max_usize. cbn [usize_max usize64].
+  intros Ha Hb. unfold Casts.checked_usize, checked_mul_usize, Casts.min_usize. cbn [Casts.usize_max_w usize_w_of].
   assert (H : 0 <=? a * b = true) by (apply Z.leb_le; nia). rewrite H. reflexivity.
 Qed.
 
@@ -61,7 +66,7 @@ Qed.
 (* ---- the pixel window: checked_mul, get(start..), get(0..n) ---- *)
 Lemma pixel_bytes_eq t (buf : list Z) index : 0 <= index -> 0 <= nbytes t ->
   match (match Casts.checked_usize (index * nbytes t) with Some start => Casts.slice_from buf start | None => None end) with
-  | Some b => Casts.slice_range b 0 (nbytes t) | None => None end = get_pixel_bytes (U := usize64) t buf index.
+  | Some b => Casts.slice_range b 0 (nbytes t) | None => None end = get_pixel_bytes t buf index.
 Proof.
   intros Hi Hn. unfold get_pixel_bytes. rewrite checked_usize_eq by assumption.
   unfold checked_mul_usize. destruct (index * nbytes t <=? usize_max); [|reflexivity].
@@ -70,14 +75,14 @@ Proof.
 Qed.
 
 Lemma pixel_bytes_len t (buf : list Z) index s : 0 <= nbytes t ->
-  get_pixel_bytes (U := usize64) t buf index = Some s -> length s = Z.to_nat (nbytes t).
+  get_pixel_bytes t buf index = Some s -> length s = Z.to_nat (nbytes t).
 Proof.
   intros Hn. unfold get_pixel_bytes. destruct (checked_mul_usize index (nbytes t)); [|discriminate].
   destruct (get_from buf z); [|discriminate]. apply get_prefix_len. assumption.
 Qed.
 
 Lemma src_RawU16_load_eq alt buf index : 0 <= index ->
-  src_RawU16_load_O alt buf index = load_bytes (U := usize64) U16 alt buf index.
+  src_RawU16_load_O alt buf index = load_bytes U16 alt buf index.
 Proof.
   intros Hi. unfold src_RawU16_load_O, load_bytes.
   pose proof (pixel_bytes_eq U16 buf index Hi) as E. change (nbytes U16) with 2 in E. rewrite E by lia. clear E.
@@ -88,7 +93,7 @@ Proof.
 Qed.
 
 Lemma src_RawU24_load_eq alt buf index : 0 <= index ->
-  src_RawU24_load_O alt buf index = load_bytes (U := usize64) U24 alt buf index.
+  src_RawU24_load_O alt buf index = load_bytes U24 alt buf index.
 Proof.
   intros Hi. unfold src_RawU24_load_O, load_bytes.
   pose proof (pixel_bytes_eq U24 buf index Hi) as E. change (nbytes U24) with 3 in E. rewrite E by lia. clear E.
@@ -99,7 +104,7 @@ Proof.
 Qed.
 
 Lemma src_RawU32_load_eq alt buf index : 0 <= index ->
-  src_RawU32_load_O alt buf index = load_bytes (U := usize64) U32 alt buf index.
+  src_RawU32_load_O alt buf index = load_bytes U32 alt buf index.
 Proof.
   intros Hi. unfold src_RawU32_load_O, load_bytes.
   pose proof (pixel_bytes_eq U32 buf index Hi) as E. change (nbytes U32) with 4 in E. rewrite E by lia. clear E.
@@ -127,7 +132,7 @@ Proof. rewrite byte_of_0, byte_of_1, byte_of_2, byte_of_3. reflexivity. Qed.
 Lemma view_window t (buf : list Z) index : 0 <= index -> 0 <= nbytes t ->
   match (match Casts.checked_usize (index * nbytes t) with Some start => Casts.view_from (Casts.view_all buf) start | None => None end) with
   | Some v => Casts.view_range v 0 (nbytes t) | None => None end
-  = match get_pixel_bytes (U := usize64) t buf index with Some _ => Some (index * nbytes t, nbytes t) | None => None end.
+  = match get_pixel_bytes t buf index with Some _ => Some (index * nbytes t, nbytes t) | None => None end.
 Proof.
   intros Hi Hn. unfold get_pixel_bytes. rewrite checked_usize_eq by assumption.
   unfold checked_mul_usize. destruct (index * nbytes t <=? usize_max); [|reflexivity].
@@ -158,7 +163,7 @@ Ltac store_tac T N :=
   cbn [fst snd res_ok]; f_equal.
 
 Lemma src_RawU16_store_eq alt v buf index : 0 <= index ->
-  (fst (src_RawU16_store_O alt v buf index), res_ok (snd (src_RawU16_store_O alt v buf index))) = store_bytes (U := usize64) U16 alt v buf index.
+  (fst (src_RawU16_store_O alt v buf index), res_ok (snd (src_RawU16_store_O alt v buf index))) = store_bytes U16 alt v buf index.
 Proof.
   unfold src_RawU16_store_O, src_RawU16_into_inner. store_tac U16 2.
   change (nbytes U16) with 2. unfold encode_bytes, to_be. change (Z.to_nat (nbytes U16)) with 2%nat. rewrite to_le_2.
@@ -166,7 +171,7 @@ Proof.
 Qed.
 
 Lemma src_RawU32_store_eq alt v buf index : 0 <= index ->
-  (fst (src_RawU32_store_O alt v buf index), res_ok (snd (src_RawU32_store_O alt v buf index))) = store_bytes (U := usize64) U32 alt v buf index.
+  (fst (src_RawU32_store_O alt v buf index), res_ok (snd (src_RawU32_store_O alt v buf index))) = store_bytes U32 alt v buf index.
 Proof.
   unfold src_RawU32_store_O, src_RawU32_into_inner. store_tac U32 4.
   change (nbytes U32) with 4. unfold encode_bytes, to_be. change (Z.to_nat (nbytes U32)) with 4%nat. rewrite to_le_4.
@@ -174,9 +179,10 @@ Proof.
 Qed.
 
 Lemma src_RawU24_store_eq alt v buf index : 0 <= index ->
-  (fst (src_RawU24_store_O alt v buf index), res_ok (snd (src_RawU24_store_O alt v buf index))) = store_bytes (U := usize64) U24 alt v buf index.
+  (fst (src_RawU24_store_O alt v buf index), res_ok (snd (src_RawU24_store_O alt v buf index))) = store_bytes U24 alt v buf index.
 Proof.
   unfold src_RawU24_store_O, src_RawU24_into_inner. store_tac U24 3.
   change (nbytes U24) with 3. unfold encode_bytes, to_be. rewrite to_le_4.
   destruct alt; (rewrite view_copy_splice by (cbn; lia)); reflexivity.
 Qed.
+End WithUsize.
